@@ -22,6 +22,8 @@ def check(chk, thorough=False):
     chk.run('C03.j', 'R-PAIR', 'each certificate of a PEM chain file is parsed from its own lines: the line accumulator is emptied after every certificate (else every entry of the chain is the first certificate again)', lambda ob: c03j(tree, ob), floor=1)
     chk.run('C03.k', 'R-FRESH', 'each target of a policy gets its own operation, so the block lists every target once and every target is covered by its own MAC (= C16.f)', lambda ob: __import__('sa.props.c16', fromlist=['c16f']).c16f(tree, ob), floor=2)
     chk.run('C03.l', 'R-SCHEMA', 'a null in the place of an endpoint ID is refused on decode (the AAD re-encodes the primary block and the security source: null would re-encode as dtn:none and still verify) (= C08.e clause)', lambda ob: __import__('sa.props.c08', fromlist=['eid_null_refused']).eid_null_refused(tree, ob), floor=1)
+    chk.run('C03.m', 'R-SCHEMA', 'the decode is faithful to the item that arrived (types, endpoint ID normal form, deterministic encoding): the AAD re-encodes decoded blocks, another spelling of a covered value would still verify (= C08.e)', lambda ob: __import__('sa.props.c08', fromlist=['c08e']).c08e(tree, ob), floor=30)
+    chk.run('C03.n', 'R-ORDER', 'on receive the confidentiality block is taken off before the integrity block over the same target is verified (the MAC was computed over the plaintext): an unaltered bundle with both verifies (= C12.a)', lambda ob: __import__('sa.props.c12', fromlist=['c12a']).c12a(tree, ob), floor=5)
     chk.run('C03.d', 'R-ORDER', 'a verification key comes only from the symmetric store by kid, or from a chain that was validated and whose node id matched; every other path raises', lambda ob: c03d(tree, ob), floor=4)
 
 
@@ -352,8 +354,34 @@ def _chain_validation(tree, ob):
         ob.violate(SEC, fv.qual + '.validate', 'validation_context=' + (src(vc) if vc is not None else '?'), 'the validator does not use the context built for this call', v)
 
 
+def _cert_store_complete(tree, ob):
+    ''' a certificate that came with a bundle is kept unless exactly these octets are already there.  Leaving the function
+    early for any other likeness (same subject key, same subject) loses a renewed certificate: a signature that names it
+    by thumbprint can then never be verified although nothing was altered. '''
+    fv = FuncView(tree, SEC, 'CertificateStore.add_untrusted_cert')
+    ob.require(len(fv.func.args.args) >= 2, 'add_untrusted_cert(self, data)')
+    dp = fv.func.args.args[1].arg
+    stores = [n for n in walk_local(fv.func) if isinstance(n, ast.Assign) and len(n.targets) == 1 and pm('self._certs_by_der[{}]'.format(dp), n.targets[0]) is not None]
+    st = one(stores, 'store of the certificate by its octets', ob)
+    for r in [x for x in walk_local(fv.func) if isinstance(x, ast.Return)]:
+        if fv.dominates(st, r)[0]:
+            continue
+        if fv.has(r, '{} in self._certs_by_der'.format(dp), True):
+            ob.site(SEC, r, 'left early only for the very same octets')
+        else:
+            ob.violate(SEC, fv.qual, 'return before self._certs_by_der[{}] = ...'.format(dp), 'a certificate is dropped although its octets are not in the store (it only resembles a known one): a renewed '
+                       'certificate for a known key is never kept, and a block that names it by thumbprint fails to verify unaltered', r, sure=True)
+    # raising (an undecodable certificate) is the other way out; falling through must pass the store
+    ok = fv.cfg.must_pass(fv.cfg.entry, fv.cfg.exit, {fv.node(st)} | {fv.node(r) for r in walk_local(fv.func) if isinstance(r, ast.Return)}, include_exc=False)[0]
+    if ok:
+        ob.site(SEC, st, 'every certificate that is not a repeat is stored')
+    else:
+        ob.violate(SEC, fv.qual, 'a way through add_untrusted_cert without the store', 'a certificate can pass through without being kept', fv.func)
+
+
 def c03d(tree, ob):
     _chain_validation(tree, ob)
+    _cert_store_complete(tree, ob)
     fv = FuncView(tree, SEC, 'CoseContext._get_cose_key')
     rets = [r for r in walk_local(fv.func) if isinstance(r, ast.Return)]
     ob.require(len(rets) >= 2, 'key returns')
